@@ -1625,6 +1625,7 @@ def translate_header(path):
     out["insertAt"] = compose("insertAt", "insertHint", f"{hint_pos} v_key v_value", f" ({hint_pos} : Nat)" + kv, "insertPrivate")
     order2 += ["insertPrivate", "insertPlain", "insertAt"]
     # ---- the one-line public bodies over find / remove(it): recognised by the shape of their syntax tree
+    info["oneLiner"] = {"pure": True, "counting": False, "fuel": False, "ret": "void", "params": []}
     trx = Tr2("oneLiner", sigs, fields, False, info)
 
     def body_of(rx, what):
